@@ -14,7 +14,9 @@
                      p   = per device, what its transform chain produced per design voxel for that parameter set
                            (doubled value 0|1|2 for continuous / etched, material index for discrete)
                      inv = inverse-permittivity tensor of every cell, 9 integers in units of 1/S
-                     dc  = dispersive coefficients (c1, c2, c3 flattened) of every cell, units 1/S  (disp = 1)
+                     dc  = dispersive coefficients (c1, c2, c3 (, c4) flattened) of every cell, units 1/S  (disp = 1)
+     dtables         (disp = 1) per device, per material: the coefficient tuple compute_allowed_dispersive_coefficients
+                     gives (all zeros for a non-dispersive material)
      fresh           inv (and dc) after applying ONLY the last parameter set to a freshly placed scene
      rd (per event)  rounding deviation of every cell's sent values, in 1/1000 of a unit (must be 0 where the
                      result is claimed exact)
@@ -68,9 +70,19 @@ DeviceClause(c, e, i) ==
         THEN (IF d.kind = "discrete" THEN "device: a cell does not carry the inverse permittivity of the selected material"
               ELSE "device: a cell is not the inverse of the linear blend of the permittivities")
         ELSE IF exact /\ \E k \in own : e.rd[k] # 0 THEN "device: discrete inverse permittivity is not exact"
-        ELSE IF c.disp = 1 /\ d.kind = "discrete" /\ \E k \in own : e.dc[k] # c.dtable[e.p[i][D!VoxelOf(d, k - 1)] + 1]
+        ELSE IF c.disp = 1 /\ d.kind = "discrete" /\ \E k \in own : e.dc[k] # c.dtables[i][e.p[i][D!VoxelOf(d, k - 1)] + 1]
         THEN "device: a cell does not carry the dispersion coefficients of the selected material"
         ELSE ""
+
+\* detail (the property speaks of dispersion coefficients only for discrete outputs): a continuous device writes
+\* the blend (1-p)*t0 + p*t1 of its two materials' coefficients, stated doubled: 2*dc = (2-v)*t0 + v*t1 (+-2 units)
+BlendCoefOK(c, e, i) ==
+    LET d == c.devs[i]
+        own == { k \in 1..c.N : D!InDevice(d, k - 1) /\ D!InOneDevice(c.devs, k - 1) }
+    IN  d.kind # "continuous" \/
+        \A k \in own : LET v == e.p[i][D!VoxelOf(d, k - 1)] IN
+            \A j \in 1..Len(e.dc[k]) :
+                D!Abs(2 * e.dc[k][j] - ((2 - v) * c.dtables[i][1][j] + v * c.dtables[i][2][j])) <= 2
 
 Event ==
     LET c == C
@@ -92,6 +104,8 @@ Event ==
                   THEN Note("outside: a cell outside the devices was changed")
                   ELSE IF l = Len(c.events) /\ (e.inv # c.fresh.inv \/ (c.disp = 1 /\ e.dc # c.fresh.dc))
                   THEN Note("history: arrays after the sequence differ from applying only the last parameter set")
+                  ELSE IF c.disp = 1 /\ \E i \in 1..Len(c.devs) : ~BlendCoefOK(c, e, i)
+                  THEN Note("drift: a continuous device cell does not carry the linear blend of its materials' dispersion coefficients")
                   ELSE IF \E k \in 1..c.N : D!InAnyDevice(c.devs, k - 1) /\ ~D!InOneDevice(c.devs, k - 1)
                                               /\ ~D!IsInverseOf(e.inv[k], seqm[k], c.S, c.tol)
                   THEN Note("drift: a cell shared by two devices differs from writing the devices in list order")
